@@ -17,7 +17,7 @@ RULE = ('one case = one element of the product model x flow x coefficients x geo
 ASSUMPTIONS = ['tolerance 1e-11 of the summand magnitude']
 RTOL = 1e-11
 SIG_GAMMA = 'C19:calc_kA-skew-symmetrises-the-curvature-part'
-COEFS = [(2.3, 0.7, 0.11), (2.3, 0.0, 0.11), (0.0, 0.7, 0.0), (-1.1, 0.35, 2.0)]
+COEFS = [(2.3, 0.7, 0.11), (2.3, 0.0, 0.11), (0.0, 0.7, 0.0), (-1.1, 0.35, 2.0), (1.5, -0.4, 0.3)]
 ORDS = [(4, 4), (3, 5), (6, 2), (2, 6), (9, 3)]
 FLAGPATS = ['SSSS', 'CCCC', 'flowfree', 'generic_restrained', 'rot_only']
 
@@ -40,7 +40,7 @@ def cases(tier, seed):
         out.append(dict(kind='panel', model=model, flow=flow, coef=ci, geom=geom, pat=pat, m=m, n=n, seed=seed))
     for model, flow, mach in itertools.product(['plate', 'cpanel'], ['x', 'y'], [1.3, 2.0, 1.0]):
         out.append(dict(kind='mach', model=model, flow=flow, mach=mach, seed=seed))
-    for model, flow, ci, nst in itertools.product(['plate', 'cpanel'], ['x', 'y'], [0, 3], [0, 1]):
+    for model, flow, ci, nst in itertools.product(['plate', 'cpanel'], ['x', 'y'], [0, 3, 4], [0, 1]):
         out.append(dict(kind='bay', model=model, flow=flow, coef=ci, nstiff=nst, seed=seed))
     return out
 
@@ -63,7 +63,7 @@ def check_panel(case):
     p, ref, cfg = build(case, fl)
     beta, gamma, aeromu = COEFS[case['coef']]
     gamma_eff = gamma if (case['model'] == 'cpanel' and case['flow'] == 'x') else 0.0   # gamma only for curved panels
-    p.beta, p.gamma, p.aeromu = beta, gamma, aeromu
+    p.beta, p.gamma, p.aeromu = beta, gamma, 7.7 * aeromu + 0.3     # the attribute must not override calc_cA's argument
     p.calc_k0(silent=True)
     K = pan.dense(p.calc_kA(silent=True))
     restrained = fl['w1t' + case['flow']] == 0.0 and fl['w2t' + case['flow']] == 0.0
@@ -197,11 +197,23 @@ def check_bay(case):
             fails.append(fail('bay kA differs from the piston-theory bilinear form of the skin' +
                               (' (explained by the curvature part being skew-symmetrised)' if sig else ''), sig=sig, case=case))
     try:
-        C = pan.dense(spb.calc_cA(silent=True))
-        Cr = np.zeros((size, size), dtype=complex)
-        Cr[:ref.size, :ref.size] = ref.cA(aeromu)
-        if np.abs(C - Cr).max() > 1e-11 * (np.abs(Cr).max() + 1e-300):
-            fails.append(fail('bay cA differs from -i*aeromu*Int(w_A w_B) of the skin', sig=None, case=case))
+        # history: the coefficients are changed after calc_kA; the next matrices must follow the current values
+        for scale in (1.0, -0.5, 3.0):
+            spb.aeromu = aeromu * scale
+            spb.beta, spb.gamma = beta * scale, gamma * scale
+            C = pan.dense(spb.calc_cA(silent=True))
+            Cr = np.zeros((size, size), dtype=complex)
+            Cr[:ref.size, :ref.size] = ref.cA(aeromu * scale)
+            if np.abs(C - Cr).max() > 1e-11 * (np.abs(Cr).max() + 1e-300):
+                fails.append(fail('bay cA differs from -i*aeromu*Int(w_A w_B) of the skin (coefficient changed after an earlier evaluation)'
+                                  if scale != 1.0 else 'bay cA differs from -i*aeromu*Int(w_A w_B) of the skin', sig=None, case=case, scale=scale))
+                break
+            K2 = pan.dense(spb.calc_kA(silent=True))
+            Kr2 = np.zeros((size, size))
+            Kr2[:ref.size, :ref.size] = ref.kA(beta * scale, gamma_eff * scale, case['flow'])
+            if np.abs(K2 - Kr2).max() > 1e-11 * (np.abs(Kr2).max() + 1e-300):
+                fails.append(fail('bay kA does not follow coefficients changed after an earlier evaluation', sig=None, case=case, scale=scale))
+                break
     except Exception as e:
         fails.append(fail('StiffPanelBay.calc_cA raises', sig='C19:bay-calc_cA-raises', case=case, error=repr(e)[:300]))
     return dict(fails=fails, execs=2, transitions=2, nontrivial=1)
